@@ -216,9 +216,9 @@ Proof. exact translated_wb_extract_next_is_model. Qed.
    `impl io::Write for WinconStream` methods that delegate to them, regenerated from the
    working tree on every run.  The translated code computes exactly what the hand model -- the
    subject of every theorem above -- computes (wconv_n / wconv_u only reorder the result triple
-   and rename io::Result to sres).  (fmt::Adapter and write_vectored are hand-modelled,
-   token-pinned; the console, extract_next and the anstyle accessors are vocabulary: see
-   tools/gen_fn_stream.py.) *)
+   and rename io::Result to sres).  (The console, extract_next and the anstyle accessors are vocabulary:
+   see tools/gen_fn_stream.py; write_vectored and fmt::Adapter (Generated/FmtFn.v, Props/C06.v
+   c06_translated_adapter_is_model) are translated too.) *)
 Theorem c18_translated_cap_wincon_color_is_model :
   forall c, g_cap_wincon_color c = Some (cap_wincon_color c).
 Proof. exact g_cap_wincon_color_eq. Qed.
@@ -272,3 +272,8 @@ Proof. exact translated_wincon_lock_preserves_state. Qed.
 
 Theorem c18_translated_is_terminal : forall cf x, g_wcs_is_terminal cf x = ac_tty cf.
 Proof. exact g_wcs_is_terminal_eq. Qed.
+
+(* WinconStream::write_vectored, TRANSLATED: the translated `write` on the hand model's first_nonempty *)
+Theorem c18_translated_write_vectored_is_first_nonempty :
+  forall x bufs, g_wcs_write_vectored x bufs = g_wcs_write x (first_nonempty bufs).
+Proof. exact g_wcs_write_vectored_first. Qed.
